@@ -257,7 +257,7 @@ func init() {
 		r.Cov["rule"] = "RegDep, MemDep, Shadow, Tail and General cases; each case is run 4 times on fresh machines of every configuration (two of them concurrently with other machines in the same process), once with a parsed Application previously run on a different variant, and a sample of the (case, configuration) pairs is repeated in two other processes (GOMAXPROCS=1 and 16, hence other map-iteration seeds); the (cycles, registers, memory) triples must be identical. The specification's role is input selection; non-trivial = at least 3 executed instructions"
 		fams := []famRun{famRunOf("RegDep", "small"), famRunOf("MemDep", "small"), famRunOf("Tail", "small"), famRunOf("Shadow", "small"), famRunOf("Repo", "small")}
 		if tier == "thorough" {
-			fams = []famRun{famRunOf("RegDep", "large"), famRunOf("MemDep", "large"), famRunOf("Tail", "large"), famRunOf("Shadow", "large"), famRunOf("Repo", "large"), generalRuns()[1]}
+			fams = []famRun{famRunOf("RegDep", "small"), famRunOf("MemDep", "large"), famRunOf("Tail", "large"), famRunOf("Shadow", "large"), famRunOf("Repo", "large"), generalRuns()[1]} // RegDep: the whole small family (the quick tier takes a third of it)
 		}
 		fams = append(fams, famRunOf("Oob", "small"))
 		detRun(r, fams)
